@@ -69,9 +69,8 @@ PROPS = {
     "C20": {
         "engines": [("c20", "main")],
         "lean": ["PgsVerif.Props.C20"],
-        "category": "exploration",
         "rule": "corpus + exhaustive texts over {a,' ',newline,e-acute,U+3000,bb} up to 5 symbols (7 thorough) x widths incl. degenerate ones; word-length x separator x width grids; random texts with Unicode blanks and invalid bytes; texts beyond 4KiB and 64KiB; non-trivial = at least 2 runes",
-        "level_text": "THEOREMS PENDING (level exploration until they are proved): executable Lean model of bufio.Scanner+splitComment at rune/byte level compared with the real code, and the property as a checker (Phi) evaluated on every implementation output. Planned theorems over all texts, all rune decorations and all widths (also <= 3 and negative): words of the output in order = words of the input, every line marked and non-empty, every multi-word line within the width.",
+        "level_text": "Theorem C20_wrap over all texts, all rune decorations and all widths (also <= 3 and negative): words of the output in order = words of the input, every line marked and non-empty, every multi-word line within the width.",
         "level_note": "Trusted: Lean kernel; utf8.DecodeRune and unicode.IsSpace enter as per-input decoration of the text (theorems hold for every decoration); bufio.Scanner modelled for a reader that delivers the whole text in one read (the buffer is sized len(text)+1 by the code), validated against the real scanner incl. texts > 64KiB; fmt.Fprintln/strings.Fields/Join modelled as marker + blank-separated words.",
     },
     "C18": {
